@@ -33,6 +33,24 @@ def walk_minimal(buf):
     return None
 
 
+def oid_text_lines(rng, n):
+    """valid dotted OIDs whose arcs sit on and around every base-128 length boundary"""
+    bounds = []
+    for k in (7, 14, 21, 28):
+        bounds += [2 ** k - 2, 2 ** k - 1, 2 ** k, 2 ** k + 1]
+    bounds += [0, 1, 2 ** 32 - 2, 2 ** 32 - 1]
+    out = []
+    for b in bounds:
+        out.append("oidstr " + f"1.3.{b}".encode().hex())
+        out.append("oidstr " + f"2.39.{b}.{b}".encode().hex())
+    for _ in range(n):
+        arcs = [rng.choice([0, 1, 2]), rng.randrange(40)]
+        arcs += [rng.choice(bounds) if rng.random() < 0.5 else rng.getrandbits(rng.randrange(1, 33))
+                 for _ in range(rng.randrange(0, 12))]
+        out.append("oidstr " + ".".join(str(a) for a in arcs).encode().hex())
+    return out
+
+
 def int_lines(rng, quick):
     vals = set()
     # exhaustive: every value of 1..2 content octets (quick) / 1..3 (thorough)
@@ -66,6 +84,7 @@ def run(chk, model_ok=True):
     st.add("encint", [f"encint {v}" for v in ints])
     n = 3000 if quick else 60000
     st.add("encoid", gens.lines_encoid(rng, n))
+    st.add("oidstr", oid_text_lines(rng, n))
     st.add("encpdu", gens.lines_encpdu(rng, n))
     st.add("encmsg", gens.lines_encmsg(rng, n))
     st.run()
@@ -97,6 +116,15 @@ def run(chk, model_ok=True):
                 fail(ln, out, "OID element is not tag + minimal length + content")
             back.append(f"ber oid {out[3:]}")
             back_expect.append(f"ok {parts[1]} -")
+        elif parts[0] == "oidstr":
+            text = bytes.fromhex(parts[1]).decode()
+            arcs = [int(x) for x in text.split(".")]
+            want = ber.oid_content(arcs).hex()
+            if out != f"ok {want}":
+                fail(ln, out, f"OID {text} is not encoded in the minimal X.690 form ({want})")
+            else:
+                back.append(f"oidtxt {want}")
+                back_expect.append(f"ok {text}")
         elif parts[0] == "encpdu" and out.startswith("ok "):
             back.append(f"pdu {out[3:]}")
             back_expect.append("ok " + " ".join(parts[1:]))
